@@ -345,6 +345,25 @@ impl Env {
         }
     }
 
+    /// Environment of the libFuzzer bridge (no command line; replay files get a `fuzz` seed tag).
+    pub fn for_fuzz(property: &str) -> Self {
+        let known = load_known()
+            .into_iter()
+            .filter(|k| k.property == property && k.status == "known")
+            .collect();
+        Self {
+            property: property.to_string(),
+            tier: Tier::Thorough,
+            seed: std::env::var("VERIF_SEED").ok().and_then(|s| s.trim().parse::<i128>().ok()).map(|x| x as u64).unwrap_or(1),
+            shards: 1,
+            known,
+            replay: None,
+            known_hits: Mutex::default(),
+            start: Instant::now(),
+            abort: AtomicBool::new(false),
+        }
+    }
+
     /// Mode.
     pub fn mode(&self) -> Mode {
         match &self.replay {
@@ -937,4 +956,45 @@ pub fn emergency_violation(part: &str, case: Value, reason: &str) -> ! {
     use std::io::Write;
     let _ = std::io::stdout().flush();
     std::process::exit(1);
+}
+
+// ------------------------------------------------------------------------------------------------
+// libFuzzer bridge: the same generators and oracles driven by a coverage-guided byte stream.
+
+/// Runs one case built from a raw choice stream; `Err((reason, case))` is a violation candidate.
+pub type FuzzFn = fn(Vec<u16>, &mut Stats) -> Result<(), (String, Value)>;
+
+/// One (property, part) pair that the libFuzzer bridge can drive.
+pub struct FuzzEntry {
+    /// Property id.
+    pub property: &'static str,
+    /// Part name (same as in the proptest campaign, so replay files are interchangeable).
+    pub part: &'static str,
+    /// Maximal number of choices the generator of this part consumes.
+    pub max_choices: usize,
+    /// Runs one case.
+    pub run: FuzzFn,
+}
+
+/// Builds a [`FuzzEntry`] from a generator `fn(&mut Choices) -> Case` and a check
+/// `fn(&Case, &mut Stats) -> Result<(), String>`.
+#[macro_export]
+macro_rules! fuzz_entry {
+    ($prop:expr, $part:expr, $max:expr, $gen:expr, $check:expr) => {
+        $crate::FuzzEntry {
+            property: $prop,
+            part: $part,
+            max_choices: $max,
+            run: |raw, st| {
+                let mut ch = $crate::Choices::new(raw);
+                let case = ($gen)(&mut ch);
+                $crate::guard(|| ($check)(&case, st)).map_err(|r| (r, $crate::to_json(&case)))
+            },
+        }
+    };
+}
+
+/// Serialises a case (helper of [`fuzz_entry`]).
+pub fn to_json<T: Serialize>(t: &T) -> Value {
+    serde_json::to_value(t).unwrap_or(Value::Null)
 }
